@@ -46,7 +46,8 @@ class Env(dict):
         return tuple(sorted(self.items(), key=lambda kv: kv[0]))
 
     def kill(self, base):
-        for k in [k for k in self if _prefix_match(k, base)]:
+        for k in [k for k, v in self.items()
+                  if _prefix_match(k, base) or (type(v) is tuple and v and v[0] == "alias" and _prefix_match(v[1], base))]:
             del self[k]
 
     def copy_tree(self, src, dst):
@@ -133,7 +134,8 @@ class Walker:
     def __init__(self, F, body, *, on_stmt=None, on_term=None, on_edge=None, pure_calls=None,
                  after_stmt=None, call_result=None,
                  max_states=400000, arith=False, ordered_marks=False, want_ret=False,
-                 inline_eq_derive=True, max_marks=64, ret_prefixes=("0",), dedupe_marks=False):
+                 inline_eq_derive=True, max_marks=64, ret_prefixes=("0",), dedupe_marks=False,
+                 refine=True, keep_ints=True):
         self.F = F
         self.body = body
         self.on_stmt = on_stmt
@@ -152,6 +154,8 @@ class Walker:
         self.max_marks = max_marks
         self.ret_prefixes = tuple(ret_prefixes)
         self.dedupe_marks = dedupe_marks
+        self.refine = refine
+        self.keep_ints = keep_ints
         self.states_explored = 0
         self.edges_taken = set()
 
@@ -224,6 +228,8 @@ class Walker:
         t = self.body.ty(c["t"])
         if t["k"] == "fndef":
             return ("fn", t["d"])
+        if c["s"] in ("()", "const ()"):
+            return None
         return ("const", c["s"])
 
     def val(self, env, op):
@@ -346,7 +352,8 @@ class Walker:
                 if d is not None:
                     env[dst] = d
                     return
-            env[dst] = ("discr", src, adt)
+            if self.refine or v is not None:
+                env[dst] = ("discr", src, adt)
             return
         if k == "binop":
             a = self.val(env, rv["a"])
@@ -457,6 +464,10 @@ class Walker:
                         self._add_mark(marks_l, m)
                 if s["k"] == "assign":
                     self.assign(env, s["p"], s["rv"])
+                    if not self.keep_ints:
+                        d = self.norm(env, s["p"])
+                        for k2 in [k2 for k2, v2 in env.items() if isinstance(v2, int) and _prefix_match(k2, d)]:
+                            del env[k2]
                     if self.after_stmt:
                         self.after_stmt(self, bb, idx, s, env)
                 elif s["k"] == "setdiscr":
@@ -561,16 +572,18 @@ class Walker:
                 if name is not None and name in excluded:
                     continue
                 e2 = Env(env)
+                ephemeral = (x["k"] == "move" and not x["p"]) or not self.refine
+                if ephemeral and key is not None:
+                    e2.pop(key, None)
                 if name is not None:
-                    e2[src] = ("var", adt, name)
-                    if x["k"] == "move" and not x["p"]:
-                        e2.pop(key, None)
-                    else:
-                        e2[key] = av
                     arm_names.append(name)
+                    if self.refine:
+                        e2[src] = ("var", adt, name)
+                        if not ephemeral:
+                            e2[key] = av
                 out.append((b, e2))
             e3 = Env(env)
-            if x["k"] == "move" and not x["p"]:
+            if (x["k"] == "move" and not x["p"]) or not self.refine:
                 e3.pop(key, None)
             if adt and arm_names:
                 allv = set(self.F.variants(adt)) if adt in self.F.adts else None
@@ -578,7 +591,8 @@ class Walker:
                 if allv is not None and allv <= ex:
                     # otherwise branch infeasible
                     return out
-                e3[src] = ("notvar", adt, ex)
+                if self.refine:
+                    e3[src] = ("notvar", adt, ex)
             out.append((t["else"], e3))
             return out
         excluded = v[1] if isinstance(v, tuple) and v[0] == "not" else frozenset()
@@ -586,6 +600,8 @@ class Walker:
         moved = x["k"] == "move" and not x["p"]
         if moved and key is not None:
             env.kill(key)
+            key = None
+        if not self.refine:
             key = None
         for av, b in arms:
             if av in excluded:
@@ -615,10 +631,6 @@ class Walker:
                 ty = self.body.ty(x["t"])
                 if ty["k"] == "ref" and ty.get("m") and not (name in self.pure):
                     env.kill(v[1])
-        # moved-from argument locals are dead afterwards
-        for x in t["xs"]:
-            if x["k"] == "move" and not x["p"]:
-                env.kill(str(x["l"]))
         env.kill(dst)
         result = None
         if name is not None:
@@ -629,6 +641,10 @@ class Walker:
                 result = self._derived_eq(env, args)
         if result is None and self.call_result is not None:
             result = self.call_result(self, bb, t, env, args)
+        # moved-from argument locals are dead afterwards
+        for x in t["xs"]:
+            if x["k"] == "move" and not x["p"] and not _prefix_match(dst, str(x["l"])):
+                env.kill(str(x["l"]))
         if result is not None:
             env[dst] = result
         if t["t"] is None:
